@@ -671,7 +671,7 @@ func mergeShapeCase(o sweepOpts, triples bool) CaseResult {
 					for i := range w.Rows {
 						r := &w.Rows[i]
 						if refmodel.RowSatisfiesPrefilter(r.Row, r.Partition, indexed, &pe) && got[r.Info.Canon] == 0 {
-							res.Findings = append(res.Findings, fnd("c01-prefilter-missing-after-merge", "C01 %s: row %s satisfies the prefilter with its own value but was not returned after the merge (blocks: %s)", qn, r.Info.Canon, siBlockRanges(si)))
+							res.Findings = append(res.Findings, fnd("c01-prefilter-missing-after-merge", "C01/C04 %s: row %s satisfies the prefilter with its own value but was not returned after the merge — its block was pruned (blocks: %s)", qn, r.Info.Canon, siBlockRanges(si)))
 							break
 						}
 					}
